@@ -56,6 +56,13 @@ CLAIMS["C13"] = ("must-pass-through analysis on the MIR CFG of all 32 print vari
     "display widths or strftime output.",
     "DESIGN.md §3 C13")
 
+CLAIMS["C14"] = ("regular-language analysis (regex-syntax HIR anchoring) of const-evaluated CLI patterns; MIR dataflow in process_dt/cli_process_args: provenance of parse-call arguments, paired-update of value and pattern under the row flag, dominance of the exit calls by the rejecting conditions",
+    "Static necessary-condition check: the relative-offset grammar is anchored at both ends; a bare date is completed to 00:00:00 in value and "
+    "pattern together; zone-less values are parsed in the --tz-offset zone with the row's own has_tz flag; named zones are substituted from the "
+    "zone table with %Z->%z once; the '@'-relative bound is resolved second against the other bound; unparseable, both-relative, after>before "
+    "(strict) and ambiguous-zone inputs exit non-zero. Does not decide chrono's parsing of each absolute form.",
+    "DESIGN.md §3 C14")
+
 NA_REASON = {}
 
 checks = []
@@ -91,6 +98,8 @@ m = {
     "engines": [
         {"name": "s4facts", "path": "engines/s4facts", "serves_properties": [c["property_id"] for c in checks],
          "kind_free_text": "rustc_private fact extractor (MIR with resolved callees, ADT layouts, const-evaluated tables) run as RUSTC_WORKSPACE_WRAPPER"},
+        {"name": "rxtab", "path": "engines/rxtab", "serves_properties": [p for p in ("C04", "C07", "C14") if p in CLAIMS],
+         "kind_free_text": "regular-language analyser (regex-syntax HIR, regex-automata dense DFA product search) over const-evaluated regex tables"},
         {"name": "rules", "path": "engines/rules", "serves_properties": [c["property_id"] for c in checks],
          "kind_free_text": "Python rule engine over the facts: CFG dominance/must-pass, dataflow origins, decision-path enumeration, typestate, sibling cross-checks"},
     ],
